@@ -1533,13 +1533,16 @@ pub fn codegen(
     #[cfg(test)]
     const MAX_ITERATIONS: usize = 50;
 
+    // A program whose passes keep influencing each other (e.g. segments that depend on each other's size,
+    // or a branch that is only in range when it is not emitted) never settles, so give up after a while.
     #[cfg(not(test))]
-    const MAX_ITERATIONS: usize = usize::MAX;
+    const MAX_ITERATIONS: usize = 256;
 
     let mut prev_undefined = HashSet::new();
     let mut prev_errors = Diagnostics::default().with_code_map(&ctx.tree.code_map);
 
     let mut errors = Diagnostics::default().with_code_map(&ctx.tree.code_map);
+    let mut converged = false;
     ctx.pass_idx = 0;
     while ctx.pass_idx != MAX_ITERATIONS {
         match ctx.emit_tokens(&ast.main_file().tokens) {
@@ -1579,6 +1582,7 @@ pub fn codegen(
             if errors.is_empty() {
                 // Nothing undefined anymore? Then we're done!
                 if ctx.undefined.is_empty() {
+                    converged = true;
                     break;
                 } else {
                     // If the same symbols are undefined that were undefined in the previous pass, they are truly undefined.
@@ -1611,6 +1615,16 @@ pub fn codegen(
         errors = Diagnostics::default().with_code_map(&ctx.tree.code_map);
 
         ctx.next_pass();
+    }
+
+    if !converged {
+        // We ran out of passes without reaching a stable result
+        let mut errors = prev_errors;
+        errors.push(Diagnostic::error().with_message(format!(
+            "the program could not be assembled: it is still changing after {} passes (are some segments, labels or branches mutually dependent?)",
+            MAX_ITERATIONS
+        )));
+        return (Some(ctx), errors);
     }
 
     // We're done!
